@@ -41,6 +41,10 @@ SameBonds == e.pc = "done" => RTBonds(G1a, G1j, Dec) = ""
 SameMarks == e.pc = "done" => RTMarks(G1j, Dec) = ""
 SameSense == e.pc = "done" => RTSense(G1a, G1j, Dec) = ""
 
+(* the same for strict=False, where the round trip is only promised for molecules that obey the table *)
+SameSenseV == (e.pc = "done" /\ Overfull(e) = {}) => (RTAtoms(G1a, Dec) = "" /\ RTSense(G1a, G1j, Dec) = "")
+SameMarksV == (e.pc = "done" /\ Overfull(e) = {}) => RTMarks(G1j, Dec) = ""
+
 (* C10: encoding the decoded SMILES again reproduces the same SELFIES *)
 Reencoded == ERun(EInit(LET lx == LexSmiles(Dec.out) IN [i \in 1..Len(lx.toks) |-> lx.toks[i].b \o lx.toks[i].txt],
                         TRUE, Strict))
